@@ -100,11 +100,31 @@ def caller_job(job):
 
     seed, fk = job
     rng = random.Random(seed)
-    fe = [{"county_fips": "all"}, {"county_classification": "all"}, {"postal_code": "all", "county_classification": "all"}][fk % 3]
+    fe = [{"county_fips": "all"}, {"county_classification": "all"}, {"postal_code": "all", "county_classification": "all"},
+          {"county_classification": ["urban", "rural"]}, {"county_classification": ["urban"], "postal_code": "all"}][fk % 5]
     case = gen.gen_case(rng, pi_method=rng.choice(["nonparametric", "gaussian"]), fixed_effects=fe, outlier=False, alphas=[0.8], estimands=["turnout"])
-    with run_impl.SolverCapture() as cap:
-        h = aggfam.harvest(case)
-    out = {"seed": seed, "ok": h["ok"], "exc": h.get("exc"), "fe": fe, "bad": []}
+    # what the model hands to its Featurizer must be the request's selection (levels listed by the user stay listed, the rest is pooled)
+    run_impl._imp()
+    from elexmodel.handlers.data.Featurizer import Featurizer as F_
+    seen = []
+    orig_init = F_.__init__
+
+    def init(slf, features, fixed_effects, *a, **k):
+        orig_init(slf, features, fixed_effects, *a, **k)
+        seen.append({"features": list(slf.features), "params": {k_: list(v_) for k_, v_ in slf.fixed_effect_params.items()}})
+
+    F_.__init__ = init
+    try:
+        with run_impl.SolverCapture() as cap:
+            h = aggfam.harvest(case)
+    finally:
+        F_.__init__ = orig_init
+    out = {"seed": seed, "fk": fk, "ok": h["ok"], "exc": h.get("exc"), "fe": fe, "bad": [], "featurizer_args": []}
+    want_params = {k_: (["all"] if v_ == "all" else list(v_)) for k_, v_ in fe.items()}
+    for sn in seen:
+        if sn["params"] != want_params or sn["features"] != list(case["params"]["features"]):
+            out["featurizer_args"].append({"got": sn, "want": {"features": list(case["params"]["features"]), "params": want_params}})
+            break
     if not h["ok"]:
         return out
     fits = [r for r in cap.records if r["op"] == "fit"]
@@ -234,18 +254,25 @@ def run(chk):
             chk.violation("design matrices / column lists differ from the Featurizer model although the C16 predicate holds on them",
                           dict(replay, correspondence="coq/Model/Featurizer.v check_featurizer", coq=v), {"kind": "model-diff"}, no_input=True)
     # caller level: the matrices actually handed to the solver
-    cj = core.pmap(caller_job, [(rng.randint(0, 2**31), [0, 0, 1, 0, 2][k % 5]) for k in range(10 if chk.tier == "quick" else 100)])
+    cj = core.pmap(caller_job, [(rng.randint(0, 2**31), [0, 3, 1, 4, 2, 3][k % 6]) for k in range(12 if chk.tier == "quick" else 120)])
     for o in cj:
+        for fa in o.get("featurizer_args", []):
+            chk.violation(f"a run with fixed_effects={o['fe']} builds its Featurizer with {fa['got']} (the request says {fa['want']}): the levels the user selected are not "
+                          f"what is expanded / pooled", {"kind": "caller", "seed": o["seed"], "fk": o.get("fk")}, {"kind": "caller-featurizer-args"})
         chk.count({"caller_fe": sorted(o["fe"]), "ok": o["ok"]}, nontrivial=o["ok"], sample={"caller_run_fixed_effects": o["fe"], "constant_fitted_columns": o["bad"][:2]})
         for b in o["bad"]:
             chk.violation(f"{b['fit']} fit #{b['fit_index']} of a run with fixed effects {sorted(o['fe'])}: fitted dummy column {b['column']} is constant ({b['value']}) on its "
-                          f"{b['rows']} fitting rows", {"kind": "caller", "seed": o["seed"]}, {"kind": "caller-constant-column", "fit": b["fit"]})
+                          f"{b['rows']} fitting rows", {"kind": "caller", "seed": o["seed"], "fk": o.get("fk")}, {"kind": "caller-constant-column", "fit": b["fit"]})
     if not ok and not [v for v in chk.violations if not v["no_input"]]:
         chk.violation("proof obligations of C16 no longer check", {"theorem_file": "coq/Properties/C16.v", "log": rep.get("log_tail", "")[-1500:]}, {"kind": "proof-broken"}, no_input=True)
     return chk.finish(RULE)
 
 
 def replay(chk, payload):
+    if payload["replay"].get("kind") == "caller":
+        o = caller_job((payload["replay"]["seed"], payload["replay"].get("fk", 0)))
+        print(json.dumps({k: o.get(k) for k in ("ok", "exc", "fe", "bad", "featurizer_args")}, indent=1, default=str))
+        return 1 if (o["bad"] or o["featurizer_args"]) else 0
     o = worker(payload["replay"]["seed"])
     print(json.dumps({k: o.get(k) for k in ("ok", "exc", "frame", "complete", "active")}, indent=1, default=str))
     return 0
